@@ -111,11 +111,6 @@ def run(sid, tier="quick", props=None, check_timeout=1800):
                                    text=True, timeout=check_timeout, start_new_session=True)
             except subprocess.TimeoutExpired as e:
                 # kill the whole process group of the check (its worker pool)
-                import signal as _s
-                try:
-                    os.killpg(os.getpgid(e.cmd and 0 or 0), _s.SIGKILL)
-                except Exception:  # noqa: BLE001
-                    pass
                 sh(["pkill", "-KILL", "-f", "egmc[.]main " + prop + " " + tier])
                 out[prop] = {"verdict": f"timeout>{check_timeout}s", "fingerprints": [], "harness": []}
                 continue
